@@ -1259,6 +1259,11 @@ fn try_multicall() -> Result<Option<i32>> {
 }
 
 fn main() -> Result<()> {
+    // Verification hook (feature `verif-hooks` only): see `yq_runner::verif_quote_server`.
+    #[cfg(feature = "verif-hooks")]
+    if std::env::var("SUCCINCTLY_VERIF_HOOK").as_deref() == Ok("yq-quote") {
+        std::process::exit(yq_runner::verif_quote_server()?);
+    }
     // Multi-call binary: check if invoked via a known alias name (e.g., sjq, syq)
     if let Some(exit_code) = try_multicall()? {
         std::process::exit(exit_code);
